@@ -262,6 +262,39 @@ def coq_bools(name, imports, terms, shard=250, timeout=900, prelude=''):
     return sorted(bad), errors
 
 
+def coq_codes(name, imports, terms, shard=200, timeout=900, prelude=''):
+    """Evaluate Gallina terms of type N with vm_compute; returns (list of ints, one per term, None where the
+    shard failed; errors).  Used where a case has more than two outcomes (agree / differ / model declined / fuel)."""
+    os.makedirs(CASES, exist_ok=True)
+    shards = [terms[i:i + shard] for i in range(0, len(terms), shard)]
+    paths = []
+    for k, sh in enumerate(shards):
+        path = os.path.join(CASES, f'{name}_{k}.v')
+        with open(path, 'w', encoding='utf-8') as fh:
+            fh.write(f'From BS Require Import {imports}.\n{prelude}\n')
+            for i, t in enumerate(sh):
+                fh.write(f'Definition c{i} : N := {t}.\n')
+            fh.write('Eval vm_compute in ([' + '; '.join(f'c{i}' for i in range(len(sh))) + ']).\n')
+        paths.append(path)
+    codes, errors = [], []
+    with concurrent.futures.ThreadPoolExecutor(max_workers=NPROC) as ex:
+        for k, (rc, out) in enumerate(ex.map(lambda p: _coqc(p, timeout), paths)):
+            m = re.search(r'=\s*\[(.*?)\]\s*:\s*list N', out, re.S)
+            vals = [int(x) for x in re.findall(r'(\d+)%N', m.group(1))] if m else []
+            if rc != 0 or not m or len(vals) != len(shards[k]):
+                errors.append((k, out[-2000:]))
+                codes += [None] * len(shards[k])
+                continue
+            codes += vals
+    for k, p in enumerate(paths):
+        if not any(k == ek for ek, _ in errors):
+            try:
+                os.remove(p)
+            except OSError:
+                pass
+    return codes, errors
+
+
 def coq_show(name, imports, term, timeout=300, prelude=''):
     """Eval vm_compute in <term>; returns the printed text (for replay files)"""
     os.makedirs(CASES, exist_ok=True)
